@@ -64,7 +64,8 @@ fn continuation(bars: bool, len: usize, salt: u64) -> Vec<Op> {
 fn continuation_finite(bars: bool, len: usize, salt: u64) -> Vec<Op> {
     let signed = salt % 2 == 1;
     if bars {
-        let mut g = BarGen::new(BarStyle::Mixed, 1.0, 0xC0FFEE ^ salt);
+        // every third continuation on a tick grid (highs, lows and closes that tie with what came before the reset)
+        let mut g = BarGen::new(if salt % 3 == 1 { BarStyle::TickGrid } else { BarStyle::Mixed }, 1.0, 0xC0FFEE ^ salt);
         (0..len)
             .map(|i| {
                 let b = g.next();
